@@ -248,3 +248,53 @@ package keeper
 //@          - (div(old(pendingQ(Pledge[msg.Creator], get(Pool).AccRewardPerByte.Amount)), 1000000000000000000) - (oldbal(moduleAddr("node"), Pledge[msg.Creator].Reward.Denom) - bal(moduleAddr("node"), Pledge[msg.Creator].Reward.Denom)))
 //@   ensures [C07.claim.capacity] err == nil ==> has(Pledge, msg.Creator) && Pledge[msg.Creator].TotalStorage == old(Pledge[msg.Creator].TotalStorage) && Pledge[msg.Creator].UsedStorage == old(Pledge[msg.Creator].UsedStorage)
 //@       && Pledge[msg.Creator].TotalStoragePledged == old(Pledge[msg.Creator].TotalStoragePledged) && Pledge[msg.Creator].TotalShardPledged == old(Pledge[msg.Creator].TotalShardPledged)
+
+// ---- replica placement (C15)
+
+// a node record is eligible for a shard of `size` bytes
+//@ pure eligible(n node_Node, hasP bool, p node_Pledge, role int, status int, rep float32, size int) bool =
+//@     hasP && p.TotalStorage - p.UsedStorage >= size && (status & n.Status) == status && n.Reputation >= rep && n.Role == role
+
+// representation invariant of the node store: every record sits under the key of its own creator
+//@ pure nodeKeyed(k bytes, n node_Node) bool = k == keyof(Node, n.Creator)
+
+//@ func (Keeper) GetAllNodesByStatusAndReputationAndRole(ctx, role, status, reputation, size) (list)
+//@   requires forall k bytes :: rawhas(Node, k) ==> k == keyof(Node, rawget(Node, k).Creator)
+//@   requires forall c string :: has(Pledge, c) ==> i64(Pledge[c].TotalStorage - Pledge[c].UsedStorage) == Pledge[c].TotalStorage - Pledge[c].UsedStorage
+//@   modifies nothing
+//@   ensures [C15.filter.stored] forall j int :: 0 <= j && j < len(list) ==> has(Node, list[j].Creator) && Node[list[j].Creator] == list[j]
+//@   ensures [C15.filter.elig] forall j int :: 0 <= j && j < len(list) ==> eligible(list[j], has(Pledge, list[j].Creator), Pledge[list[j].Creator], role, status, reputation, size)
+//@   ensures [C15.filter.distinct] forall a int, b int :: 0 <= a && a < b && b < len(list) ==> list[a].Creator != list[b].Creator
+//@   loop L1 invariant 0 <= itpos() && itpos() <= itlen()
+//@   loop L1 invariant forall j int :: 0 <= j && j < len(list) ==> has(Node, list[j].Creator) && Node[list[j].Creator] == list[j]
+//@   loop L1 invariant forall j int :: 0 <= j && j < len(list) ==> eligible(list[j], has(Pledge, list[j].Creator), Pledge[list[j].Creator], role0, status0, reputation0, size0)
+//@   loop L1 invariant forall a int, b int :: 0 <= a && a < b && b < len(list) ==> klt(keyof(Node, list[a].Creator), keyof(Node, list[b].Creator))
+//@   loop L1 invariant forall a int :: 0 <= a && a < len(list) && itpos() < itlen() ==> klt(keyof(Node, list[a].Creator), itkey(itpos()))
+//@   loop L1 decreases itlen() - itpos()
+
+// RandomIndex draws `count` distinct indexes below `total` from the decimal digits of the seed.
+//@ func (Keeper) RandomIndex(seed, total, count) (idx)
+//@   requires seed != nil && *seed >= 0
+//@   modifies nothing
+//@   nopanic [C02.ri.nopanic]
+//@   ensures [C15.ri.empty] total <= count ==> len(idx) == 0
+//@   ensures [C15.ri.len] len(idx) <= max(count, 0)
+//@   ensures [C15.ri.range] forall i int :: 0 <= i && i < len(idx) ==> 0 <= idx[i] && idx[i] < total
+//@   ensures [C15.ri.distinct] forall i int, j int :: 0 <= i && i < j && j < len(idx) ==> idx[i] != idx[j]
+//@   loop L1 invariant total0 > count0 && seed != nil && *seed >= 0
+//@   loop L1 invariant count <= count0 && (count0 > 0 ==> count >= 0 && len(idx) + count == count0) && (count0 <= 0 ==> len(idx) == 0)
+//@   loop L1 invariant forall i int :: 0 <= i && i < len(idx) ==> 0 <= idx[i] && idx[i] < total0
+//@   loop L1 invariant forall i int, j int :: 0 <= i && i < j && j < len(idx) ==> idx[i] != idx[j]
+//@   loop L1 decreases [C02.ri.term] *seed + count
+//@   loop L2 invariant 0 <= rs && rs <= total0 && count0 > 0 && count >= 0 && len(idx) + count == count0
+//@   loop L2 invariant forall i int :: 0 <= i && i < len(idx) ==> 0 <= idx[i] && idx[i] < total0
+//@   loop L2 invariant forall i int, j int :: 0 <= i && i < j && j < len(idx) ==> idx[i] != idx[j]
+//@   loop L2 decreases [C02.ri.term] total0 - rs
+//@   loop L3 invariant -1 <= rangeindex && rangeindex < len(idx)
+//@   loop L3 invariant duplicate ==> (exists j int :: 0 <= j && j <= rangeindex && idx[j] == rs)
+//@   loop L3 invariant !duplicate ==> (forall j int :: 0 <= j && j <= rangeindex ==> idx[j] != rs)
+//@   loop L3 decreases [C02.ri.term] len(idx) - rangeindex
+//@   loop L4 invariant -1 <= rangeindex && rangeindex < len(idx)
+//@   loop L4 invariant duplicate ==> (exists j int :: 0 <= j && j <= rangeindex && idx[j] == rs)
+//@   loop L4 invariant !duplicate ==> (forall j int :: 0 <= j && j <= rangeindex ==> idx[j] != rs)
+//@   loop L4 decreases [C02.ri.term] len(idx) - rangeindex
